@@ -5,6 +5,7 @@ import InovesaModel.Model.FokkerPlanck
 import InovesaModel.Model.RFDrift
 import InovesaModel.Model.PhaseSpace
 import InovesaModel.Model.H5Read
+import InovesaModel.Gen.PPlates
 import InovesaModel.Model.ElectricField
 import InovesaModel.Model.Options
 import InovesaModel.Model.MainProgram
@@ -609,6 +610,50 @@ def runImp (c : Case) : List String :=
     let delta : Float32 := (fmax / f0 / (n.toFloat - 1.0)).toFloat32
     out (resistiveWall n r (fun i => Float32.sqrt (Float32.ofNat i * delta)))
   | "coll" => out (constImpedance n (c.aux.getD 0 f32zero, f32zero))
+  | "pp" =>
+    -- the GENERATED scalar arithmetic of ParallelPlatesCSR::__calcImpedance, evaluated in binary64; the Airy functions
+    -- are supplied by the check (aux: per sample `count`, then count × (Ai, Ai', Bi, Bi') each as (hi, lo, exponent) of binary32 numbers;
+    -- a NaN `hi` of Ai marks the mode at which the library call of the implementation overflows)
+    let pi : Float := 3.14159265358979323846
+    let env0 : Gen.PP.PPEnv Float :=
+      { k_Z0 := 1.0 / (8.854187817e-12 * 2.99792458e8), k_c := 2.99792458e8, k_pi := pi, k_pi_sqr := 9.86960440108935861883,
+        o_f0 := (e 0).toFloat, o_f_max := (e 1).toFloat, o_g := (e 2).toFloat, o_nfreqs := n.toFloat,
+        powf := Float.pow, r32 := fun x => x.toFloat32.toFloat,
+        v_b := 0, v_delta := 0, v_i := 0, v_m := 0, v_maxp := 0, v_n := 0, v_p := 0, v_r_bend := 0, v_u := 0 }
+    let env1 := { env0 with v_delta := Gen.PP.p_delta env0, v_r_bend := Gen.PP.p_r_bend env0 }
+    let dbl := fun (k : Nat) => ((c.aux.getD k f32zero).toFloat + (c.aux.getD (k + 1) f32zero).toFloat).scaleB
+        ((c.aux.getD (k + 2) f32zero).toFloat.toInt64.toInt)
+    -- walk over the samples, consuming the Airy table
+    let (tab, _) := (List.range (Gen.PP.iLast n + 1 - Gen.PP.iFirst)).foldl
+      (fun (acc : List (Cx Float32) × Nat) (ii : Nat) =>
+        let (rows, pos) := acc
+        let i := Gen.PP.iFirst + ii * Gen.PP.iStep
+        let e2 := { env1 with v_i := i.toFloat }
+        let e3 := { e2 with v_n := Gen.PP.p_n e2 }
+        let e4 := { e3 with v_m := Gen.PP.p_m e3 }
+        let e5 := { e4 with v_b := Gen.PP.p_b e4 }
+        let maxp := (Gen.PP.p_maxp e5).toUInt32.toNat
+        let count := (c.aux.getD pos f32zero).toFloat.toUInt32.toNat
+        let nmodes := if maxp < Gen.PP.pFirst then 0 else (maxp - Gen.PP.pFirst) / Gen.PP.pStep + 1
+        let (zr, zi, _) := (List.range nmodes).foldl
+          (fun (a : Float × Float × Bool) (k : Nat) =>
+            let (sr, si, stopped) := a
+            if stopped || k ≥ count then (sr, si, true)
+            else
+              let base := pos + 1 + 12 * k
+              let ai := dbl base
+              if ai.isNaN then (sr, si, true)
+              else
+                let p := Gen.PP.pFirst + k * Gen.PP.pStep
+                let u := Gen.PP.p_u { e5 with v_p := p.toFloat }
+                (sr + Gen.PP.zincRe u ai (dbl (base + 3)) (dbl (base + 6)) (dbl (base + 9)),
+                 si + Gen.PP.zincIm u ai (dbl (base + 3)) (dbl (base + 6)) (dbl (base + 9)), false))
+          (0.0, 0.0, false)
+        let sc := Gen.PP.p_scale e5
+        (rows ++ [((zr * sc).toFloat32, (zi * sc).toFloat32)], pos + 1 + 12 * count)) ([], 0)
+    let full : List (Cx Float32) := (List.range n).map fun i =>
+      if Gen.PP.iFirst ≤ i ∧ i ≤ Gen.PP.iLast n then tab.getD (i - Gen.PP.iFirst) (f32zero, f32zero) else (f32zero, f32zero)
+    out full
   | "sum" =>
     let t := addInto (constImpedance n (e 1, e 2)) (constImpedance (natArg c 4) (e 3, e 4))
     ["case " ++ c.id, s!"ints {t.length} {t.length}", hexLine "vals" (t.flatMap fun z => [z.1, z.2])]
